@@ -59,6 +59,10 @@ def rows(pattern):
     return out
 
 
+NOTES = {
+    "C02-s12": "NOT a valid seed: with this patch the pinned suite fails intermittently (indexer::index_writer::tests::test_delete_proptest_with_merge draws fresh random cases; it failed in my confirmation run, passed in the author's). Kept as a detection target only.",
+    "C11-s9": "written before the F40 repair: its demonstration (commit fails, the writer is kept, explicit GC) now ends with 'Segment updater killed' on both trees; the mutation still manifests through a failed meta.json replacement at the end of a MERGE followed by a collection (C11 publish-fault enumeration, StorageProto_negS11)",
+}
 confirm = {r[0]: r[1:] for r in rows("/tmp/confirm.tsv")}
 detect = {}
 for r in rows("/tmp/dm*.tsv"):
@@ -73,8 +77,14 @@ for d, (prop, what, needs) in NEEDS.items():
             "confirmed_by_me": {"how": "tools/confirm_seed.sh in /tmp/confirm_wt: demo on the unchanged tree, demo with the patch, full pinned suite (cargo nextest, 1547 tests) with the patch",
                                 "result": confirm.get(d, ["not yet confirmed"])},
             "detection": detect.get(d, [])}
+    if d in NOTES:
+        meta["note"] = NOTES[d]
     json.dump(meta, open(os.path.join(p, "meta.json"), "w"), indent=1)
 for d in sorted(os.listdir(os.path.join(ROOT, "seeded"))):
+    if d.startswith("own_"):
+        p = os.path.join(ROOT, "seeded", d)
+        meta = {"origin": "written by the author of the checks (not independent): a change in a mechanism no independent seed had touched yet", "detection": detect.get(d, [])}
+        json.dump(meta, open(os.path.join(p, "meta.json"), "w"), indent=1)
     if d.startswith("regress_"):
         p = os.path.join(ROOT, "seeded", d)
         meta = {"origin": "reverse patch of the fix: commit for finding " + d[len("regress_"):] + " (re-introduces the repaired defect)",
